@@ -2,6 +2,7 @@
 from props import enginecore
 
 MODULE = "EngineCore"
+META = {"spec": ["EngineCore", "BarterSystem"]}
 
 
 def check(ctx):
